@@ -34,6 +34,9 @@ type ScalarCase struct {
 	// Again: url: values of further occurrences of OUR parameter, placed right before ours
 	// (?k=&k=abc): every occurrence is judged on its own
 	Again []string `json:"again,omitempty"`
+	// NoModel: the rule text is malformed (an unbalanced quote): what it means is not documented, so
+	// only the metamorphic oracles apply (same call alone / in a fresh state / concurrently)
+	NoModel bool `json:"nomodel,omitempty"`
 	// Plus: url (the raw form): blanks of our value are written as '+' (form encoding) - the URL
 	// then holds no '%' at all, and the value is still the one with blanks
 	Plus bool `json:"plus,omitempty"`
